@@ -514,6 +514,44 @@ def check_programs(h: Harness):
             h.seen(f"programs:{desc}:{kind}", nontrivial=made > 20)
 
 
+def check_weights_survive_derived_grammars(h: Harness):
+    """deriving another grammar from an extracted one (`g.usable_grammar()`, the reachable and productive part) is a read: afterwards the
+    weights `g` reports are the ones it reported before -- per rule non-negative, summing to one, in the declared ratios -- also when some
+    weighted production can never be completed (an empty nested abstract type, a production that needs itself)"""
+    import gram
+    C = gram.ClassSpec
+    specs = [
+        gram.Spec([C("A0", True, None), C("Lit", False, 0, [("k", ("ann", "int", ("intRange", 0, 3)))], weight=5), C("Neg", False, 0, [("e", ("cls", 0))], weight=6),
+                   C("Ext", True, 0, weight=1)], 0, [1, 2, 3]),
+        gram.Spec([C("A0", True, None), C("Lit", False, 0, [], weight=0.5), C("Pair", False, 0, [("l", ("cls", 0)), ("r", ("cls", 0))], weight=0.25),
+                   C("Stuck", False, 0, [("s", ("cls", 3))], weight=0.25)], 0, [1, 2, 3]),
+        gram.Spec([C("A0", True, None), C("Lit", False, 0, [("k", "int")], weight=2), C("Neg", False, 0, [("e", ("cls", 0))], weight=1),
+                   C("B", True, None), C("Only", False, 3, [("b", ("cls", 3))]), C("Loop", False, 0, [("b", ("cls", 3))], weight=1)], 0, [1, 2, 4, 5, 3]),
+    ]
+    for spec in specs:
+        b = gram.build(spec)
+        try:
+            g = b.extract()
+        except Exception as e:  # noqa: BLE001
+            h.notes.append(f"derived-grammars witness not extractable: {type(e).__name__}")
+            continue
+        before = {k.__name__: float(v) for k, v in g.get_weights().items()}
+        try:
+            for _ in range(2):
+                g.usable_grammar()
+        except Exception as e:  # noqa: BLE001
+            h.count(f"derived-grammars:usable_grammar-raised:{type(e).__name__}")
+        after = {k.__name__: float(v) for k, v in g.get_weights().items()}
+        h.count("weights-survive-derived-grammars")
+        h.seen(f"derived:{core_sx(gram.spec_sx(spec))[:60]}", nontrivial=True)
+        moved = [k for k in before if abs(before[k] - after.get(k, -1)) > 1e-9]
+        sums = {sym.__name__: sum(float(g.get_weights()[p_]) for p_ in prods) for sym, prods in g.alternatives.items()}
+        if moved or any(abs(t - 1.0) > 1e-9 for t in sums.values()):
+            h.fail("extract_grammar", "weights-not-normalised",
+                   f"after g.usable_grammar() the grammar's own weights moved: {dict((k, (before[k], after.get(k))) for k in moved)}; per rule they now sum to {sums} "
+                   f"(grammar {core_sx(gram.spec_sx(spec))[:200]})", [core_sx(gram.spec_sx(spec)), "usable_grammar"])
+
+
 def check_same_named_rules(h: Harness):
     """two DIFFERENT abstract types of one grammar that carry the same class name (sub-languages kept in separate modules or
     namespaces, e.g. numbers.Literal and strings.Literal): each rule is normalised on its own -- its productions sum to 1 in the
@@ -703,6 +741,7 @@ def corpus_nested(listed: bool, inner, outer_e, mid_weight=None):
 
 
 def run(h: Harness):
+    check_weights_survive_derived_grammars(h)
     rng = h.rng
     budget = {"all_draws": h.n(6, 60)}
 
